@@ -63,13 +63,16 @@ def case_for(draw, ka, kb, recipe):
     pa = draw(gen.lattice_point(6))
     pb = draw(gen.lattice_point(6))
     mk = lambda k, p, d: ("V", d) if k == "V" else (k, p, d)
-    return (mk(ka, pa, u), mk(kb, pb, v))
+    # constructor forms of bridge._build_raw (Line from two points / position vector, Plane from three points /
+    # two spanning vectors / general form): the direction the library derives must not depend on the form
+    forms = (draw(st.integers(0, 3)), draw(st.integers(0, 3)))
+    return (mk(ka, pa, u), mk(kb, pb, v), forms)
 
 
-def _build(o):
+def _build(o, form=0):
     if o[0] == "V":
         return B.vec(o[1])
-    return B.build(o)
+    return B.build(o, form=form)
 
 
 def _dir(o):
@@ -78,7 +81,8 @@ def _dir(o):
 
 def check(case, ctx):
     G = lib()
-    a, b = case
+    a, b = case[:2]
+    fa, fb = case[2] if len(case) > 2 else (0, 0)
     u, v = _dir(a), _dir(b)
     ang = X.acute_angle(u, v)
     exact_par = X.is_zero(X.cross(u, v))
@@ -98,7 +102,7 @@ def check(case, ctx):
     if rel != "generic" or mixed:
         ctx.nontrivial(case)
     ctx.sample(cls, case, ref)
-    oa, ob = _build(a), _build(b)
+    oa, ob = _build(a, fa), _build(b, fb)
     facts = {"pair": "%s-%s" % (a[0], b[0]), "relation": rel}
     forms = [("(a,b)", lambda f: f(oa, ob)), ("(b,a)", lambda f: f(ob, oa))]
     res = {}
@@ -130,7 +134,7 @@ def check(case, ctx):
 
 
 def admit(case, fail):
-    a, b = case
+    a, b = case[:2]
     m = A.Margin()
     u, v = _dir(a), _dir(b)
     m.see(A._sin(u, v), "direction sine")
